@@ -263,7 +263,7 @@ CONFIG["C09"] = dict(
          "list shapes {nil, empty, one, nil element, mixed key types, many}, mismatched list lengths, hashers {nil, right size, wrong sizes}; threshold inspector call chains with every index/share shape; "
          "DKG: random sequences of Start/NextTimeout/End/ForceDisqualify/messages with arbitrary tags, payloads and origins at arbitrary phases (each also replayed by the state-machine model); hash and PRG constructors; outcome must be a typed error / verdict, never a panic",
     trusted_base=BLS_TB, technique="Lean 4 proof (coverage of every &x[0] site and exactness of the list of every run-time-checked index / slice expression, both regenerated from the code; guards imply the lengths and index ranges the sites need) + boundary-grammar run under recover",
-    level_text="Theorems: every pointer-to-first-element site of the current code is in the justified table and vice versa (decided against the regenerated site list); the extracted guards imply exact lengths (48/32/96), non-empty lists with matching lengths, valid indices, DKG sizes fitting a byte; index_sites_exact: the list of every index / slice expression of the three packages whose bound can fail at run time (maps, constant bounds on arrays and the &x[0] hand-overs apart; 129 sites) regenerated on this run is the list reviewed at the pinned commit - a new or edited index expression breaks the lemma and sends the check into its boundary search. "
+    level_text="Theorems: every pointer-to-first-element site of the current code is in the justified table and vice versa (decided against the regenerated site list); the extracted guards imply exact lengths (48/32/96), non-empty lists with matching lengths, valid indices, DKG sizes fitting a byte; index_sites_exact: the table (function, operand type, kind -> number of index / slice expressions whose bound can fail at run time; maps, compile-time-checked bounds, the &x[0] hand-overs and the index variable of a loop over the operand itself apart; 83 rows) regenerated on this run is the table reviewed at the pinned commit - a new index expression breaks the lemma and sends the check into its boundary search, renaming variables does not. generators_have_prime_order is in C12. "
                "Memory safety inside BLST and the Go runtime, and C reads past a Go-owned buffer that do not crash, are outside what the run can observe (partial); ASan was tried and cannot see past Go-heap buffers.",
     level_note="partial: BLST internals and the Go runtime are not modelled; a hash.Hasher lying about Size() is a program, not an input",
     assumptions=["documented exceptions excluded: UintN(0), nil interface/callback arguments, sizes whose documented cost is linear memory, no-cgo builds"],
@@ -287,7 +287,7 @@ def _c20_hook(ctx):
     with ctx["lock"]():
         bins = []
         for k, (name, env, tags, prefix_only) in enumerate(configs):
-            out = f"harness-c20-{k}"
+            out = f"harness-c20-{k}-{os.getpid()}"
             rc, log, dt = ctx["build_harness"](tags=tags, outname=out, extra_env=env)
             if rc != 0:
                 return {"broken": [f"the harness does not build in configuration {name}: {log[-400:]}"], "coverage": {}}
@@ -296,7 +296,7 @@ def _c20_hook(ctx):
         d = os.path.join(work, f"C20-{k}")
         os.makedirs(d, exist_ok=True)
         p = subprocess.run([os.path.join(build, bins[k]), "-prop", "C20", "-tier", ctx["tier"], "-seed", str(ctx["seed"]), "-out", d],
-                           env=dict(goenv), capture_output=True, text=True)
+                           env=dict(goenv, VERIF_DRIVER=ctx.get("driver", "")), capture_output=True, text=True)
         if p.returncode != 0:
             return {"broken": [f"transcript program failed in configuration {name}: {p.stderr[-400:]}"], "coverage": {}}
         got = open(os.path.join(d, "impl.txt")).read().split("\n")
